@@ -99,7 +99,8 @@ pub struct Scratch {
 
 impl Scratch {
     pub fn new(tag: &str) -> Scratch {
-        let dir = std::env::temp_dir().join(format!("gv-{tag}-{}", std::process::id()));
+        let root = std::env::var_os("GV_SCRATCH_ROOT").map_or_else(std::env::temp_dir, PathBuf::from);
+        let dir = root.join(format!("gv-{tag}-{}", std::process::id()));
         let _ = std::fs::remove_dir_all(&dir);
         std::fs::create_dir_all(&dir).expect("create scratch dir");
         Scratch { dir }
